@@ -51,10 +51,15 @@ body_start {
     let ghost rest0 = buffer.rest();
     let ghost pos0 = buffer.pos();
     let ghost bytes0 = buffer.bytes();
+    proof { buffer.lemma_rest(); reveal(head_of); reveal(tail_of); }
+}
+after "let current_byte" {
+    proof { buffer.lemma_rest(); assert(current_byte == rest0[i as int]); }
 }
 loop 1 {
     invariant_except_break
         buffer.pos() == pos0 + i,
+        buffer.rest() == bytes0.subrange(pos0 + i, bytes0.len() as int),
         rest0.len() >= i,
         forall|k: int| 0 <= k < i ==> rest0[k] & 0x80u8 != 0,
         i < 5 ==> vi_len_from(rest0, i as nat) == vi_len(rest0),
@@ -109,6 +114,7 @@ body_start {
     let ghost rest0 = buffer.rest();
     let ghost pos0 = buffer.pos();
     let ghost bytes0 = buffer.bytes();
+    proof { buffer.lemma_rest(); reveal(head_of); reveal(tail_of); }
 }
 after "let length" {
     proof {
@@ -128,6 +134,7 @@ before "let mut text" {
 }
 after "let mut text" {
     let ghost p1 = buffer.pos();
+    proof { buffer.lemma_rest(); }
 }
 loop 1 {
     invariant
@@ -135,6 +142,7 @@ loop 1 {
         buffer.pos() == p1 + verif_it1.index@,
         p1 + length <= bytes0.len(),
         text@ == bytes0.subrange(p1, p1 + verif_it1.index@),
+        buffer.rest() == bytes0.subrange(p1 + verif_it1.index@, bytes0.len() as int),
 }
 @*/
 //@ body-end
